@@ -712,10 +712,24 @@ def _post(res):
     return res
 
 
-def run_apply(ctx, pend, a, dtype, karr, fname, chunks=None):
+def kernel_untouched(ctx, karr, koracle, what, case):
+    """the kernel argument must come back exactly as it went in (same dtype, same values)"""
+    k = np.asarray(karr)
+    if k.dtype != np.asarray(koracle).dtype or k.shape != np.asarray(koracle).shape or \
+            not np.array_equal(k, koracle, equal_nan=(k.dtype.kind == 'f')):
+        ctx.violation('oracle', '%s modified the kernel array it was given (%r became %r): a later call with the same kernel object '
+                      'computes something else' % (what, np.asarray(koracle).tolist(), k.tolist()),
+                      dict(case, kernel_after=k.tolist()))
+        return False
+    return True
+
+
+def run_apply(ctx, pend, a, dtype, karr, fname, chunks=None, koracle=None):
     focal, conv, funcs = _impl()
     rows = to_rows(a)
-    case = dict(fn='apply', func=fname, data=rows, dtype=dtype, kernel=np.asarray(karr).tolist(), kdtype=str(karr.dtype))
+    koracle = np.array(karr, copy=True) if koracle is None else koracle
+    K = kfr(koracle)
+    case = dict(fn='apply', func=fname, data=rows, dtype=dtype, kernel=np.asarray(koracle).tolist(), kdtype=str(karr.dtype))
     if chunks is not None:
         case['dask_chunks'] = chunks_json(chunks)
         ctx.count('apply/dask')
@@ -741,15 +755,18 @@ def run_apply(ctx, pend, a, dtype, karr, fname, chunks=None):
     except Exception as e:
         ctx.violation('oracle', '%s raised %s: %s' % (what, type(e).__name__, str(e)[:200]), case)
         return
-    D, K = exact_grid(rows), kfr(karr)
+    kernel_untouched(ctx, karr, koracle, what, case)
+    D = exact_grid(rows)
     check_grid(ctx, out, oracle_apply(D, K, fname), mode_of(fname), case, what)
     pend.append(('apply %s %s %s' % (fname, grid_line(D), grid_line(K)), [(out, mode_of(fname))], case, what))
 
 
-def run_stats(ctx, pend, a, dtype, karr, names, chunks=None):
+def run_stats(ctx, pend, a, dtype, karr, names, chunks=None, koracle=None):
     focal, conv, funcs = _impl()
     rows = to_rows(a)
-    case = dict(fn='focal_stats', stats=names, data=rows, dtype=dtype, kernel=np.asarray(karr).tolist(), kdtype=str(karr.dtype))
+    koracle = np.array(karr, copy=True) if koracle is None else koracle
+    K = kfr(koracle)
+    case = dict(fn='focal_stats', stats=names, data=rows, dtype=dtype, kernel=np.asarray(koracle).tolist(), kdtype=str(karr.dtype))
     if chunks is not None:
         case['dask_chunks'] = chunks_json(chunks)
         ctx.count('focal_stats/dask')
@@ -770,7 +787,8 @@ def run_stats(ctx, pend, a, dtype, karr, names, chunks=None):
     if labels != want or res.shape[0] != len(want):
         ctx.violation('oracle', '%s: layers are labelled %r, requested %r' % (what, labels, want), case)
         return
-    D, K = exact_grid(rows), kfr(karr)
+    kernel_untouched(ctx, karr, koracle, what, case)
+    D = exact_grid(rows)
     layers = []
     for i, s in enumerate(want):
         out = to_rows(res.data[i])
@@ -814,22 +832,27 @@ def run_mean(ctx, pend, a, dtype, passes, excludes, chunks=None, raw_excludes=No
         pend.append(('mean %d %d %s %s' % (passes, len(E), ' '.join(tok(e) for e in E), grid_line(D)), [(out, mode)], case, what))
 
 
-def run_conv(ctx, pend, a, dtype, karr, chunks=None):
+def run_conv(ctx, pend, a, dtype, karr, chunks=None, koracle=None, entry='convolution_2d'):
     focal, conv, funcs = _impl()
     rows = to_rows(a)
-    case = dict(fn='convolution_2d', data=rows, dtype=dtype, kernel=np.asarray(karr).tolist(), kdtype=str(karr.dtype))
+    koracle = np.array(karr, copy=True) if koracle is None else koracle
+    K = kfr(koracle)
+    case = dict(fn='convolution_2d', data=rows, dtype=dtype, kernel=np.asarray(koracle).tolist(), kdtype=str(karr.dtype), entry=entry)
     if chunks is not None:
         case['dask_chunks'] = chunks_json(chunks)
         ctx.count('convolution_2d/dask')
     ctx.count('dtype/' + dtype)
     ctx.case(case)
     ctx.count('convolution_2d/kernel=%dx%d' % karr.shape)
-    what = 'convolution_2d(kernel %dx%d)' % karr.shape
+    what = '%s(kernel %dx%d)' % (entry, karr.shape[0], karr.shape[1])
     try:
         nm = [None, 'smooth'][len(rows) % 2]
         agg = _mk(a, chunks)
-        res = conv.convolution_2d(agg, karr) if nm is None else conv.convolution_2d(agg, karr, name=nm)
-        _post(res)
+        if entry == 'convolve_2d':                       # the array-level function behind convolution_2d / hotspots
+            res = xr.DataArray(conv.convolve_2d(agg.data, karr), dims=agg.dims, name=nm or 'convolution_2d')
+        else:
+            res = conv.convolution_2d(agg, karr) if nm is None else conv.convolution_2d(agg, karr, name=nm)
+            _post(res)
         if res.name != (nm or 'convolution_2d'):
             ctx.violation('oracle', '%s: result is named %r' % (what, res.name), case)
             return
@@ -837,7 +860,8 @@ def run_conv(ctx, pend, a, dtype, karr, chunks=None):
     except Exception as e:
         ctx.violation('oracle', '%s raised %s: %s' % (what, type(e).__name__, str(e)[:200]), case)
         return
-    D, K = exact_grid(rows), kfr(karr)
+    kernel_untouched(ctx, karr, koracle, what, case)
+    D = exact_grid(rows)
     check_grid(ctx, out, oracle_conv(D, K), 'f32', case, what)
     pend.append(('conv %s %s' % (grid_line(D), grid_line(K)), [(out, 'f32')], case, what))
 
@@ -882,15 +906,16 @@ def run_hot(ctx, pend, z):
     pend.append(('hot ' + grid_line(Z), [(out, 'int')], case, what))
 
 
-def run_hotspots(ctx, pend, a, dtype, karr, chunks=None):
+def run_hotspots(ctx, pend, a, dtype, karr, chunks=None, koracle=None):
     focal, conv, funcs = _impl()
     rows = to_rows(a)
-    case = dict(fn='hotspots', data=rows, dtype=dtype, kernel=np.asarray(karr).tolist(), kdtype=str(karr.dtype))
+    koracle = np.array(karr, copy=True) if koracle is None else koracle
+    case = dict(fn='hotspots', data=rows, dtype=dtype, kernel=np.asarray(koracle).tolist(), kdtype=str(karr.dtype))
     if chunks is not None:
         case['dask_chunks'] = chunks_json(chunks)
         ctx.count('hotspots/dask')
     what = 'hotspots(kernel %dx%d)' % karr.shape
-    D, K = exact_grid(rows), kfr(karr)
+    D, K = exact_grid(rows), kfr(koracle)
     vals = [v for r in D for v in r if v is not None]
     const = len(set(vals)) <= 1
     ctx.case(case, nontrivial=not const)
@@ -918,6 +943,7 @@ def run_hotspots(ctx, pend, a, dtype, karr, chunks=None):
     except Exception as e:
         ctx.violation('oracle', '%s raised %s: %s' % (what, type(e).__name__, str(e)[:200]), case)
         return
+    kernel_untouched(ctx, karr, koracle, what, case)
     if const or out == 'ZERODIV':
         if not (const and out == 'ZERODIV'):
             ctx.violation('oracle', '%s: ZeroDivisionError expected exactly for a constant raster; got %r' % (what, out), case)
@@ -1318,6 +1344,7 @@ def run(ctx):
     compare_model(ctx, pend)
     run_float_stream(ctx)
     run_theme_stream(ctx)
+    run_kernel_stream(ctx)
 
 
 # ---------------------------------------------------------------------------------------------
@@ -1866,6 +1893,69 @@ def run_theme_stream(ctx):
     fcompare(ctx, fpend)
 
 
+# ---------------------------------------------------------------------------------------------
+# KERNEL stream (appended last): ONE kernel object reused across the functions that take a kernel, on both
+# backends; after every call the object must be byte-identical, and every result goes through the oracle with
+# the kernel's ORIGINAL logical value
+# ---------------------------------------------------------------------------------------------
+def run_kernel_stream(ctx):
+    rng = ctx.rng
+    q = ctx.quick()
+    pend = []
+    focal, conv, funcs = _impl()
+
+    def make_kernel(i):
+        kind = ['circle', 'custom-f64', 'annulus', 'float32', 'int64', 'bool', 'int8', 'custom-f64-asym'][i % 8]
+        if kind == 'circle':
+            k = conv.circle_kernel(1, 1, rng.choice([1, 2]))
+        elif kind == 'annulus':
+            k = conv.annulus_kernel(1, 1, 2, 1)
+        elif kind.startswith('custom-f64'):
+            k = conv.custom_kernel(np.array(gen_kernel01(rng, rng.choice([(3, 3), (1, 3), (3, 5), (5, 3)]), style='rand'), dtype='float64'))
+        else:
+            k = np.array(gen_kernel01(rng, rng.choice([(3, 3), (3, 1), (3, 5)]), style='rand')).astype(kind)
+        if not np.any(k == 1):
+            k[k.shape[0] // 2, k.shape[1] // 2] = 1
+        return kind, k
+
+    n = 0
+    for i in range(6 if q else 64):
+        kind, k = make_kernel(i)
+        k0 = np.array(k, copy=True)
+        snap = (k.tobytes(), k.dtype, k.shape, k.strides, k.flags.writeable)
+        ops = ['hotspots', 'convolution_2d', 'apply', 'focal_stats', 'hotspots', 'convolve_2d']
+        if i % 2 or i >= 8:
+            rng.shuffle(ops)                      # the first sequences keep the order hotspots -> convolution_2d -> apply -> focal_stats -> hotspots
+        if q:
+            ops = ops[:4 if i >= 2 else 6]
+        backend = 'dask' if i % 4 == 3 else 'numpy'
+        for op in ops:
+            rows, cols = rng.randint(max(4, k.shape[0]), 7), rng.randint(max(4, k.shape[1]), 8)
+            chunks = gen_chunks(rng, rows, cols, rng.choice(['blocks', 'uneven', '1xwide'])) if backend == 'dask' else None
+            ctx.count('kernel-reuse/%s/%s/%s' % (backend, kind, op))
+            n += 1
+            if op == 'hotspots':
+                a, dtype = gen_hot_raster(rng, dtype='float64', rows=rows, cols=cols)
+                run_hotspots(ctx, pend, a, dtype, k, chunks=chunks, koracle=k0)
+            elif op in ('convolution_2d', 'convolve_2d'):
+                a, dtype = gen_raster(rng, rows=rows, cols=cols, nanp=0.0, dtype='float64')
+                run_conv(ctx, pend, a, dtype, k, chunks=chunks, koracle=k0, entry=op)
+            elif op == 'apply':
+                a, dtype = gen_raster(rng, rows=rows, cols=cols, dtype='float64')
+                run_apply(ctx, pend, a, dtype, k, ['sum', 'mean'][n % 2], chunks=chunks, koracle=k0)
+            else:
+                a, dtype = gen_raster(rng, rows=rows, cols=cols, dtype='float64')
+                run_stats(ctx, pend, a, dtype, k, ['sum', 'max'], chunks=chunks, koracle=k0)
+            now = (k.tobytes(), k.dtype, k.shape, k.strides, k.flags.writeable)
+            if now != snap:                          # reported by kernel_untouched inside the runner (bytes, strides, flags: here)
+                if np.array_equal(np.asarray(k), k0, equal_nan=(k0.dtype.kind == 'f')) and k.dtype == k0.dtype:
+                    ctx.violation('oracle', '%s (%s backend) changed the strides / flags of the %s kernel it was given' % (op, backend, kind),
+                                  dict(fn='kernel-reuse', op=op, backend=backend, kernel_kind=kind, kernel=k0.tolist(), sequence=ops))
+                k = np.array(k0, copy=True).astype(k0.dtype)          # go on with a fresh object so that later findings are independent
+                snap = (k.tobytes(), k.dtype, k.shape, k.strides, k.flags.writeable)
+    compare_model(ctx, pend)
+
+
 def search(ctx):
     """An obligation or the correspondence broke and the normal run showed no failing input: run the oracle on more inputs."""
     old, model = ctx.tier, ctx.model
@@ -1897,6 +1987,8 @@ def replay_case(ctx, case):
         run_conv(ctx, pend, a, dtype, k, chunks=ch)
     elif fn == 'hotspots':
         run_hotspots(ctx, pend, a, dtype, k, chunks=ch)
+    elif fn == 'kernel-reuse':
+        run_kernel_stream(ctx)
     elif fn in ('sequence', 'dask-one-compute', 'defaults-mutated', 'name', 'stats-object') or fn.startswith('f_'):
         # findings of the theme / float streams depend on the call sequence: re-run those streams with the recorded seed
         run_float_stream(ctx)
